@@ -21,6 +21,8 @@ pub enum BOp {
     /// set_source_contents(first/last id, value)
     SetContents(bool, Option<String>),
     Ignore(bool),
+    /// add_to_ignore_list(1): the second source, whether or not it is registered yet
+    IgnoreSecond,
     SetRoot(Option<String>),
     SetFile(Option<String>),
     SetDebugId(bool),
@@ -51,6 +53,7 @@ fn builder_alphabet() -> Vec<BOp> {
         v.push(BOp::SetContents(last, s("text")));
         v.push(BOp::Ignore(last));
     }
+    v.push(BOp::IgnoreSecond);
     for r in [None, s(""), s("r"), s("r/"), s("/")] {
         v.push(BOp::SetRoot(r));
     }
@@ -151,6 +154,10 @@ fn run_builder_history(ops: &[BOp]) -> Option<(String, String)> {
                     m.ignore.insert(id);
                     b.add_to_ignore_list(id);
                 }
+                BOp::IgnoreSecond => {
+                    m.ignore.insert(1);
+                    b.add_to_ignore_list(1);
+                }
                 BOp::SetRoot(r) => {
                     m.root = r.clone();
                     b.set_source_root(r.as_deref());
@@ -193,7 +200,10 @@ fn run_builder_history(ops: &[BOp]) -> Option<(String, String)> {
         if real.contents != want_contents {
             return Some(("finished/contents".into(), ctx(format!("contents = {:?}, model {want_contents:?}", real.contents))));
         }
-        if real.ignore != m.ignore.iter().cloned().collect::<Vec<_>>() {
+        // ids of sources that exist in the finished map (an id ignored for a source that never came
+        // is not asserted either way)
+        let ns = m.sources.len() as u32;
+        if real.ignore.iter().cloned().filter(|&i| i < ns).collect::<Vec<_>>() != m.ignore.iter().cloned().filter(|&i| i < ns).collect::<Vec<_>>() {
             return Some(("finished/ignore-list".into(), ctx(format!("ignore list = {:?}, model {:?}", real.ignore, m.ignore))));
         }
         if real.file != m.file || real.root != m.root || real.debug_id.is_some() != m.debug {
@@ -235,6 +245,8 @@ pub enum MOp {
     /// set_source(first/last, name)
     SetSource(bool, String),
     SetContents(bool, Option<String>),
+    /// set_source(first/last, what get_source returns for it right now): "read the name, write it back"
+    SetSourceToDisplayed(bool),
     SaveLoad,
 }
 
@@ -251,6 +263,7 @@ fn map_alphabet() -> Vec<MOp> {
         v.push(MOp::SetContents(last, None));
         v.push(MOp::SetContents(last, s("new")));
     }
+    v.push(MOp::SetSourceToDisplayed(false));
     v.push(MOp::SaveLoad);
     v
 }
@@ -346,6 +359,12 @@ fn apply_mop(sm: &mut SourceMap, m: &mut MModel, op: &MOp) -> Result<(), String>
             m.raw[i] = name.clone();
             sm.set_source(i as u32, name);
         }
+        MOp::SetSourceToDisplayed(last) => {
+            let i = if *last { m.raw.len() - 1 } else { 0 };
+            let shown = join_root(m.root.as_deref(), &m.raw[i]);
+            m.raw[i] = shown.clone();
+            sm.set_source(i as u32, &shown);
+        }
         MOp::SetContents(last, v) => {
             let i = if *last { m.raw.len() - 1 } else { 0 };
             if m.contents.len() < m.raw.len() {
@@ -421,6 +440,9 @@ fn model_state_hash_b(ops: &[BOp]) -> u64 {
                 if !m.sources.is_empty() {
                     m.ignore.insert(if *last { m.sources.len() as u32 - 1 } else { 0 });
                 }
+            }
+            BOp::IgnoreSecond => {
+                m.ignore.insert(1);
             }
             BOp::SetRoot(r) => m.root = r.clone(),
             BOp::SetFile(f) => m.file = f.clone(),
